@@ -118,7 +118,102 @@ func v12ErrClass(err error) string {
 type v12State struct {
 	Gs    map[string]v12Group `json:"gs"`
 	Parts map[string]int32    `json:"parts"`
-	Idx   uint64              `json:"idx"`
+	// paused partitions of every stream of the behaviour (always a list, never null)
+	Paused map[string][]int32 `json:"paused"`
+	Idx    uint64             `json:"idx"`
+}
+
+// v12Names is the stream-name alphabet of a behaviour: the specification speaks of
+// sa < sb < sc (GroupOps.tla StreamOrder = the order of sort.Strings); the real
+// names the code is given are cfg["names"][model name] - names that keep this
+// byte order but order differently (or not at all) under other collations
+// (case pairs, prefix pairs, different lengths, digits).  Requests carry the
+// real names, the recorded state is renamed back.  Without cfg["names"] the
+// model names are the real ones.
+type v12Names struct{ real, model map[string]string }
+
+func v12NamesOf(cfg map[string]interface{}) v12Names {
+	n := v12Names{real: map[string]string{}, model: map[string]string{}}
+	if m, ok := cfg["names"].(map[string]interface{}); ok {
+		for k, v := range m {
+			n.real[k] = v.(string)
+			n.model[v.(string)] = k
+		}
+	}
+	return n
+}
+
+func (n v12Names) r(model string) string {
+	if x, ok := n.real[model]; ok {
+		return x
+	}
+	return model
+}
+
+func (n v12Names) m(real string) string {
+	if x, ok := n.model[real]; ok {
+		return x
+	}
+	return real
+}
+
+func (n v12Names) rs(models []string) []string {
+	out := make([]string, len(models))
+	for i, s := range models {
+		out[i] = n.r(s)
+	}
+	return out
+}
+
+func (n v12Names) ret(asg map[string][]int32) map[string][]int32 {
+	out := map[string][]int32{}
+	for s, ps := range asg {
+		out[n.m(s)] = append([]int32{}, ps...)
+	}
+	return out
+}
+
+// group renames the streams of a projected group back to the model names
+func (n v12Names) group(g v12Group) v12Group {
+	if !g.Exists || len(n.model) == 0 {
+		return g
+	}
+	out := v12Group{Exists: true, Subs: map[string][]string{}, Heap: map[string][]string{},
+		Asg: map[string]map[string][]int32{}, Cnt: g.Cnt, Epoch: g.Epoch, Coord: g.Coord}
+	for c, ss := range g.Subs {
+		ms := make([]string, len(ss))
+		for i, s := range ss {
+			ms[i] = n.m(s)
+		}
+		sort.Strings(ms)
+		out.Subs[c] = ms
+	}
+	for s, ids := range g.Heap {
+		out.Heap[n.m(s)] = ids
+	}
+	for c, as := range g.Asg {
+		out.Asg[c] = n.ret(as)
+	}
+	return out
+}
+
+// v12MetaStream reads the partitions of a stream from the metadata store itself
+// (not through countStreamPartitions, which is code under test): how many
+// partitions the stream has (0 = no such stream) and which of them are paused.
+func v12MetaStream(m *metadataAPI, name string) (int32, []int32) {
+	paused := []int32{}
+	st := m.GetStream(name)
+	if st == nil {
+		return 0, paused
+	}
+	ps := st.GetPartitions()
+	for id, p := range ps {
+		if p != nil && p.IsPaused() {
+			paused = append(paused, id)
+		}
+	}
+	sort.Slice(paused, func(i, j int) bool { return paused[i] < paused[j] })
+	return int32(len(ps)), paused
 }
 
 type v12Obs struct {
